@@ -381,8 +381,9 @@ def _one_expression(run, expr, rng, thorough, nrep, cases, metas, stats, distinc
         no_mag = any(has_python(pm) for pm in pmodels)   # pure-Python components refuse magnetic evaluation (NotImplementedError)
         if no_mag:
             has_mag = False
-        for rep in range(nrep + (1 if has_mag else 0)):
-            allmag = has_mag and rep == nrep       # every magnetic SLD of every component switched on, 2-D
+        for rep in range(nrep + (2 if has_mag else 0)):
+            allmag = has_mag and rep >= nrep       # every magnetic SLD of every component switched on, 2-D
+            beam_mag = has_mag and rep == nrep + 1  # ... all of them along the beam (mtheta = 0, the default latitude), partly polarised beam
             # (every expression is also evaluated on 2-D data, oriented or not: a component may define a 2-D function of
             #  its own that is not a function of |q| - `line` does)
             dim = "2d" if (allmag or rep % 3 == 2) else "1d"
@@ -401,6 +402,13 @@ def _one_expression(run, expr, rng, thorough, nrep, cases, metas, stats, distinc
                         pars[p.name[:-3] + "_mphi"] = rng.uniform(-170, 170)
                 pars.update(up_frac_i=rng.choice([0.0, 0.3, 1.0]), up_frac_f=rng.choice([0.0, 0.6, 1.0]),
                             up_theta=rng.uniform(0, 180), up_phi=rng.uniform(0, 180))
+                if beam_mag:
+                    for p in cinfo.parameters.call_parameters:
+                        if p.name.endswith("_M0"):
+                            pars[p.name[:-3] + "_mtheta"] = 0.0
+                            pars[p.name[:-3] + "_mphi"] = 0.0
+                    pars.update(up_frac_i=0.3, up_frac_f=0.6, up_theta=rng.uniform(20, 70))
+                    stats["magnetised_along_beam"] = stats.get("magnetised_along_beam", 0) + 1
             # make some component exactly zero on the grid: a line with a root at q=0.05
             zero = False
             for (sn, m), pe in zip(maps, part_exprs):
